@@ -293,6 +293,9 @@ def scope_peewee(prog, rep, methods=None, rule="SCOPE"):
             rep.check(ok, rule, fi.short, cons, "rows tied to the addressed bucket", f"rows' bucket is `{norm(keys.get('bucket')) if 'bucket' in keys else 'missing'}`", ch.loc())
             if "id" in keys:
                 rep.violation(rule, fi.short, cons + " id", "bulk INSERT names the global id column with a caller-supplied value", ch.loc())
+        elif ch.op == "bulk_update":
+            # peewee: Model.bulk_update(instances, fields) == UPDATE <table> SET <fields> = CASE id ... WHERE id IN (<ids>)
+            rep.violation(rule, fi.short, cons, f"{ch.model}.bulk_update() updates rows selected by primary key alone (UPDATE ... WHERE id IN (...)); the bucket column of the instances is not part of the statement, so an id that belongs to another bucket overwrites that bucket's event", ch.loc(), found=ch.text())
         else:
             rep.undecided(rule, fi.short, cons, f"operation {ch.op} not judged", ch.loc())
     # save() / delete_instance() on instances, from_event(...) calls, self.bucket_keys[...] indices, raw SQL
